@@ -28,6 +28,10 @@ use rs_matter::utils::storage::pooled::{Buffers, PooledBuffers};
 #[path = "c13_sys.rs"]
 mod sys;
 
+/// event rings + table + reader: what a report to a live subscription carries
+#[path = "c13_evs.rs"]
+mod evs;
+
 const POOL: usize = 6;
 type Pool = PooledBuffers<IMBuffer, POOL>;
 
@@ -380,6 +384,72 @@ fn with_runner<const N: usize, R>(f: impl FnOnce(&mut Runner<'_, '_, N>) -> R) -
     out
 }
 
+// ------------------------------------------------------------------ the event queue's numbering
+/// `KvBlobStoreAccess` over the in-memory store (the queue persists its number epoch)
+struct KvAcc(std::cell::RefCell<MemKv>, std::cell::RefCell<[u8; 256]>);
+
+impl rs_matter::persist::KvBlobStoreAccess for KvAcc {
+    fn access<F, R>(&self, f: F) -> R
+    where
+        F: FnOnce(&mut dyn KvBlobStore, &mut [u8]) -> R,
+    {
+        f(&mut *self.0.borrow_mut(), &mut self.1.borrow_mut()[..])
+    }
+}
+
+/// `evq` cases: the REAL `Events` queue — `push k` pushes `k` events (output: the numbers `push`
+/// returned, first-last, and the number the next push will assign), `wm` = `next_event_number - 1`
+/// (what `Events::watermark` hands to `add` / `report` / `load_persist`). Ties `Subs.EvQ` of the model.
+fn evq_case(out: &mut Out, case: &Case) {
+    out.case(case.id, "evq");
+    let ev: Box<rs_matter::im::events::Events<512>> = Box::new(rs_matter::im::events::Events::new());
+    let acc = KvAcc(std::cell::RefCell::new(MemKv::default()), std::cell::RefCell::new([0u8; 256]));
+    for op in &case.ops {
+        let w: Vec<&str> = op.split_whitespace().collect();
+        let res = match w.as_slice() {
+            ["push", k] => {
+                let k: u32 = k.parse().unwrap_or(1).clamp(1, 64);
+                let mut nums: Vec<u64> = Vec::new();
+                let mut bad = false;
+                for _ in 0..k {
+                    match catch_unwind(AssertUnwindSafe(|| ev.push(1, 6, 0, rs_matter::im::EventPriority::Info, &acc, |_tw| Ok(())))) {
+                        Ok(Ok(n)) => nums.push(n),
+                        _ => {
+                            bad = true;
+                            break;
+                        }
+                    }
+                }
+                if bad || nums.is_empty() {
+                    "err".to_string()
+                } else {
+                    format!("{}-{} {}", nums[0], nums[nums.len() - 1], ev.verif_next_event_number())
+                }
+            }
+            ["wm"] => ev.verif_next_event_number().wrapping_sub(1).to_string(),
+            _ => "badop".into(),
+        };
+        out.op(op, &res);
+    }
+    out.buf.push_str("#nt\n");
+}
+
+fn gen_evq(out: &mut Out, r: &mut Rng, n: u64, first_id: u64) {
+    for i in 0..n {
+        let mut ops: Vec<String> = Vec::new();
+        for _ in 0..r.range(2, 8) {
+            if r.chance(1, 3) {
+                ops.push("wm".into());
+            } else {
+                ops.push(format!("push {}", r.range(1, 6)));
+            }
+        }
+        ops.push("wm".into());
+        out.stat("evq_cases", 1);
+        evq_case(out, &Case { id: first_id + i, kind: "evq".into(), ops });
+    }
+}
+
 fn cap_of(kind: &str) -> usize {
     kind.split_whitespace().nth(1).and_then(|x| x.parse().ok()).unwrap_or(2)
 }
@@ -640,11 +710,13 @@ pub fn gen(a: &Args) -> String {
     let mut r = Rng::new(a.seed);
     let mut out = Out::default();
     out.buf.push_str("#rule a case is one interleaving on a fresh real Subscriptions<N> table (N in 1..4) of attribute changes (hot paths, bursts overflowing the 16-entry table, wildcards), subscription adds whose priming context stays open, reporter report begins with their contexts kept open, keep/retry/drop endings, purges, removals by peer and by expiry, next_report_at queries, persisting the table to a retained store and restarting the device on it (fresh table, load_persist), under a monotone clock with steps around the negotiated intervals; non-trivial = a change was recorded while a subscription was outside the table, a report was begun and a purge ran; distinct = by operation list; ");
+    out.buf.push_str(evs::RULE);
+    out.buf.push_str("; ");
     out.buf.push_str(sys::RULE);
     out.buf.push('\n');
     let n_cases = if a.thorough { 40000 } else { 4000 };
     // development aid: `--only sys` skips the table-level cases
-    let only_sys = a.extra.get("only").map(|v| v == "sys").unwrap_or(false);
+    let only_sys = a.extra.get("only").map(|v| v == "sys" || v == "evs").unwrap_or(false);
     for id in 0..n_cases {
         if only_sys {
             break;
@@ -657,7 +729,18 @@ pub fn gen(a: &Args) -> String {
             _ => gen_case::<4>(id, &mut cr, a.thorough, &mut out),
         }
     }
-    sys::gen(&mut out, &mut r, a.thorough, n_cases);
+    if !only_sys {
+        let mut er = r.fork();
+        gen_evq(&mut out, &mut er, if a.thorough { 200 } else { 20 }, 9_000_000);
+    }
+    if !only_sys || a.extra.get("only").map(|v| v == "evs").unwrap_or(false) {
+        // its own generator state: the other streams keep their cases
+        let mut vr = Rng::new(a.seed ^ 0x5e0e_c13c_e5e5_0001);
+        evs::gen(&mut out, &mut vr, if a.thorough { 3000 } else { 250 }, 9_500_000);
+    }
+    if !a.extra.get("only").map(|v| v == "evs").unwrap_or(false) {
+        sys::gen(&mut out, &mut r, a.thorough, n_cases);
+    }
     out.finish()
 }
 
@@ -667,6 +750,10 @@ pub fn replay(a: &Args) -> String {
     for c in parse_cases(&text) {
         if c.kind.starts_with("sys") {
             sys::replay_case(&mut out, &c);
+        } else if c.kind.starts_with("evq") {
+            evq_case(&mut out, &c);
+        } else if c.kind.starts_with("evs") {
+            evs::replay_case(&mut out, &c);
         } else {
             replay_case(&mut out, &c);
         }
